@@ -28,6 +28,8 @@ type Scenario struct {
 	MaxExecutions int64
 	// QuietAtomics removes scheduling points before atomic operations.
 	QuietAtomics bool
+	// Delay selects delay bounding instead of preemption bounding (see vsched.Options).
+	Delay bool
 	// DeadlockOK: a deadlock outcome is not reported as a violation (default: it is).
 	DeadlockOK bool
 	// Fingerprint prefix for deadlock/livelock reports.
@@ -68,7 +70,7 @@ type Stats struct {
 
 func runOnce(sc *Scenario, prefix []int, trace bool) *Exec {
 	x := &Exec{Data: map[string]any{}}
-	x.Out = Run(Options{Prefix: prefix, Horizon: sc.Horizon, Trace: trace, QuietAtomics: sc.QuietAtomics}, func() { sc.Body(x) })
+	x.Out = Run(Options{Prefix: prefix, Horizon: sc.Horizon, Trace: trace, QuietAtomics: sc.QuietAtomics, Delay: sc.Delay}, func() { sc.Body(x) })
 	return x
 }
 
@@ -106,6 +108,9 @@ func Explore(r *ev.R, sc Scenario) Stats {
 	}
 
 	// self-check: the same schedule twice must give identical observations
+	// (one warm-up execution first: process-global lazy initialisation - registries,
+	// sync.Once singletons - happens in the very first execution only)
+	_ = runOnce(&sc, nil, false)
 	a, b := runOnce(&sc, nil, false), runOnce(&sc, nil, false)
 	if a.Out.Unsupported != "" {
 		r.HarnessError("scenario %s: %s", sc.Name, a.Out.Unsupported)
@@ -215,7 +220,11 @@ func Explore(r *ev.R, sc Scenario) Stats {
 	}
 	st.Outcomes = len(outcomes)
 	st.BoundDone = sc.Bound
-	bounds := map[string]any{"preemption_bound": sc.Bound, "max_points_in_one_execution": st.MaxPoints, "horizon": sc.Horizon}
+	bname := "preemption_bound"
+	if sc.Delay {
+		bname = "delay_bound"
+	}
+	bounds := map[string]any{bname: sc.Bound, "max_points_in_one_execution": st.MaxPoints, "horizon": sc.Horizon}
 	for k, v := range sc.Bounds {
 		bounds[k] = v
 	}
